@@ -5,9 +5,11 @@
                   well-formed request of the handler, plus a coarse all-faults product), checks the code-shaped
                   Expected against the property (leads) and exports the cases; the Go harness runs each against the real
                   StreamableHTTPHandler (stateful, stateless) and SSEHandler; HttpGateMon judges the real outcomes.
-(b) HeaderMirror: TLC enumerates (schema shape x value class), checks Agreement on the transcription (leads) and exports
-                  the cases; the Go harness drives the real Client / StreamableClientTransport through a wire-faithful
-                  in-process RoundTripper into the real stateless handler; HeaderMirrorMon judges the real outcomes.
+(b) HeaderMirror: TLC enumerates (schema shape x value class x client-side history), checks the history machine's design
+                  facts and Agreement on the transcription (leads) and exports the cases; the Go harness plays each history
+                  (ListTools, ttl expiry on the synctest clock, the server replacing / moving the tool, list_changed) on the
+                  real Client / StreamableClientTransport and the real stateless handler behind a wire-faithful in-process
+                  RoundTripper and then makes the call; HeaderMirrorMon judges the real outcomes.
 """
 import collections, json, os, re
 import vlib
@@ -15,7 +17,10 @@ import vlib
 PID = "C12"
 GATE_K = {"quick": 3, "thorough": 5}
 GATE_REPS = {"quick": 2, "thorough": 2}
-MIRROR_REPS = {"quick": 1, "thorough": 4}
+MIRROR_REPS = {"quick": 1, "thorough": 1}
+MIRROR_BASE_REPS = {"quick": 1, "thorough": 4}     # the baseline history (listed just now) x complete table
+MIRROR_HIST = {"quick": (3, "FALSE"), "thorough": (4, "TRUE")}   # HistLen, FullCross
+BASELINE = {"ttl": "none", "page": "first", "sub": False, "steps": ["list"]}
 HARNESS = ["mcp/c12_httpgate_test.go"]
 DIMS = ["listener", "host", "ctype", "accept", "body", "vhdr", "meta", "mm", "mn", "mp", "msg"]
 
@@ -33,8 +38,35 @@ def mirror_value_name(c):
     return "empty-string" if (c["ty"], c["val"]) == ("string", "empty") else "%s/%s" % (c["ty"], c["val"])
 
 
-def mirror_sig(e):
+def hist_name(h):
+    return "%s/%s%s/%s" % (h["ttl"], h["page"], "+sub" if h["sub"] else "", ">".join(h["steps"]) or "-")
+
+
+def row_of(c):
+    return {k: c[k] for k in ("depth", "ty", "val", "hname", "nsib")}
+
+
+def mirror_how(e):
     o = e["o"]
+    if not o["sent"]:
+        return "not-sent"
+    if o["code"] == -32020:
+        return "rejected"
+    if o["accepted"] and not o["same"]:
+        return "altered"
+    if o["accepted"]:
+        return "crossed"
+    return "failed" + (",code=%d" % o["code"] if o["code"] else "")
+
+
+def mirror_sig(e, src=None):
+    """src: HeaderMirrorDefs!Source of the history when the failure is attributable to the history (the same
+    schema / value row is accepted under the baseline history), None otherwise."""
+    o = e["o"]
+    if src:
+        # where the definition the client was given last sits, and which definition the request shows
+        return "mirror:history=def@%s-page,%s,%s%s:%s,via=%s" % (src["page"], src["age"], src["rev"], ",orphan" if src["orphan"] else "",
+                                                             mirror_how(e), o["via"])
     if not o["sibok"] or not o["own"]:
         # a header carries the value of another parameter (or a sibling was refused / altered)
         return "mirror:depth=%d,siblings=%d:%s" % (e["c"]["depth"], e["c"]["nsib"], "crossed" if o["sent"] else "not-sent")
@@ -91,6 +123,15 @@ def run(tier, seed, replay):
         "part (b): the RoundTripper serialises the client's request with Request.Write, refuses field values net/http's "
         "Transport refuses, and parses it back with http.ReadRequest, so the server sees what an HTTP/1.1 hop delivers",
         "streamable handlers run with MaxRequestBodyBytes=4096; abstract classes are concretised with seeded variants",
+        "part (b) histories: client, server and wire run in one testing/synctest bubble, so a complete ListTools takes no time "
+        "(all its pages have the same age), ttlMs (1 s / 2.5 s / 30 s) expires only in 'wait' steps (ttl, ttl+1ms or 3*ttl) and a "
+        "'change' / 'shrink' costs 50 ms (the server's 10 ms list_changed debounce); 'change' = the server replaces the tool with "
+        "every x-mcp-header renamed, 'shrink' = the server removes the page of tools listed before it",
+        "part (b) scope: Agreement is demanded when the client is Informed (it listed the tool, was not told since that the list "
+        "changed, and the last tools/list answer it obtained for the tool carries the definition the server enforces). A client that "
+        "never listed the tool, whose cache was cleared by list_changed, or that holds only an outdated definition sends no usable "
+        "Mcp-Param-* header (lookupTool: 'nil if no such tool has been seen'; the SDK learns schemas from ListTools only) - that is "
+        "modelled (ExpectedSet) and compared as drift, not judged",
     ]
     out = vlib.outdir(PID)
     rep = json.load(open(replay))["replay"] if replay else None
@@ -127,26 +168,37 @@ def run(tier, seed, replay):
 
     # ------------------------------------------------------------------ (b) model + cases
     wd = vlib.scratch("tlc-")
-    mres = vlib.run_tlc("HeaderMirror", "HeaderMirror.cfg", workdir=wd, workers=1, timeout=600)
+    hist_len, full_cross = MIRROR_HIST[tier]
+    mcfg = "CONSTANT HistLen = %d\nCONSTANT FullCross = %s\n" % (hist_len, full_cross)
+    mres = vlib.run_tlc("HeaderMirror", "HeaderMirror_run.cfg", workdir=wd, workers=1, timeout=600,
+                        extra_files={"HeaderMirror_run.cfg": mcfg})
     vlib.tlc_must_pass(mres, "HeaderMirror")
     if not mres.ok:
         raise vlib.MachineryError("HeaderMirror design check failed: " + (mres.violation or mres.stdout[-2000:]))
     minfo = [p for p in mres.printed if isinstance(p, dict) and "cases" in p][0]
-    v.add_tlc("HeaderMirror(design: encode/decode facts; Agreement on the transcription -> leads)", mres)
+    v.add_tlc("HeaderMirror(design: encode/decode facts, history machine facts for every history of <= %d steps; "
+              "Agreement on the transcription -> leads)" % hist_len, mres)
     mcases = vlib.read_ndjson(os.path.join(wd, "mirror_cases.ndjson"))
     mirror_leads = {key(c) for c in vlib.read_ndjson(os.path.join(wd, "mirror_leads.ndjson"))}
-    if len(mcases) != minfo["cases"]:
-        raise vlib.MachineryError("HeaderMirror exported %d of %d cases" % (len(mcases), minfo["cases"]))
+    mirror_certain = {key(c) for c in vlib.read_ndjson(os.path.join(wd, "mirror_certain.ndjson"))}
+    hist_info = {key(h["hist"]): h for h in vlib.read_ndjson(os.path.join(wd, "mirror_hists.ndjson"))}
+    if len(mcases) != minfo["cases"] or len(hist_info) != minfo["hists"]:
+        raise vlib.MachineryError("HeaderMirror exported %d of %d cases, %d of %d histories"
+                                  % (len(mcases), minfo["cases"], len(hist_info), minfo["hists"]))
+    # the baseline history first (a failure of a row under it is a failure of the value class, not of a history)
+    mcases.sort(key=lambda c: (c["hist"] != BASELINE, not hist_info[key(c["hist"])]["named"]))
     # decision tables: one "state" per abstract case (the TLC runs above add their own counts)
     v.cov["states"] += len(mcases)
     v.cov["transitions"] += len(mcases)
 
     gcases = [p["gatecase"] for p in grow]
     greps, mreps = GATE_REPS[tier], MIRROR_REPS[tier]
+    # the baseline history is concretised more often: its extra repetitions are further input lines
+    mrun = mcases + [c for c in mcases if c["hist"] == BASELINE] * (MIRROR_BASE_REPS[tier] - mreps)
     if rep:
-        greps = mreps = 5
+        greps, mreps = 5, 40   # (a lead the model leaves open - which cached page lookupTool meets first - shows in ~1 of 8 calls)
         gcases = [rep["c"]] if do_gate else []
-        mcases = [rep["c"]] if do_mirror else []
+        mcases = mrun = [rep["c"]] if do_mirror else []
 
     # ------------------------------------------------------------------ replay on the real code
     grows, mrows = [], []
@@ -164,7 +216,7 @@ def run(tier, seed, replay):
             raise vlib.MachineryError("gate harness ran %d of %d requests" % (len(grows), len(gcases) * greps))
     if do_mirror:
         min_, mobs = os.path.join(out, "mirror_cases.ndjson"), os.path.join(out, "mirror_obs.ndjson")
-        vlib.write_ndjson(min_, mcases)
+        vlib.write_ndjson(min_, mrun)
         rc, gout, wall = run_go("TestVerif_C12Mirror", min_, mobs, seed, mreps, 1500)
         if rc != 0:
             if sdk_panic(gout):
@@ -172,8 +224,8 @@ def run(tier, seed, replay):
                 return v.finish()
             raise vlib.MachineryError("C12 mirror harness failed:\n" + gout[-3000:])
         mrows = vlib.read_ndjson(mobs)
-        if len(mrows) != len(mcases) * mreps:
-            raise vlib.MachineryError("mirror harness ran %d of %d calls" % (len(mrows), len(mcases) * mreps))
+        if len(mrows) != len(mrun) * mreps:
+            raise vlib.MachineryError("mirror harness ran %d of %d calls" % (len(mrows), len(mrun) * mreps))
 
     # ------------------------------------------------------------------ judge (TLA+ monitors)
     gfail_lines, mfail_lines = set(), set()
@@ -208,28 +260,54 @@ def run(tier, seed, replay):
                 v.drift.append("model lead not reproduced on the real handlers: first=%s cls=%s %s" % (p["first"], p["cls"], k))
     if mrows:
         mslim = os.path.join(out, "mirror_obs_mon.ndjson")
-        slim(mrows, mslim, ("accepted", "same", "code", "hdr", "own", "sibok"))
+        slim(mrows, mslim, ("accepted", "same", "code", "hdr", "own", "sibok", "via"))
         fails, r2 = vlib.run_monitor("HeaderMirrorMon", "HeaderMirrorMon.cfg", mslim, timeout=900)
         v.add_tlc("HeaderMirrorMon", r2)
         by_line = collections.defaultdict(dict)
         for f in fails:
             by_line[f["line"]][f["monfail"]] = f
+        mfail_lines = {line for line in by_line if "Agreement" in by_line[line]}
+        # rows (schema shape, value class) that fail under the baseline history: their failures elsewhere are not
+        # attributed to the history
+        base_failed = {key(row_of(mrows[l - 1]["c"])) for l in mfail_lines if mrows[l - 1]["c"]["hist"] == BASELINE}
         for line in sorted(by_line):
             e = mrows[line - 1]
             if "Agreement" in by_line[line]:
-                mfail_lines.add(line)
-                v.violation(mirror_sig(e), "the SDK client's own tools/call for a schema-valid %s argument (class %s, annotation depth %d) "
-                            "with %d annotated sibling(s) was not accepted unaltered by the SDK server, or a header did not carry its own parameter's value "
-                            "(code %d, header form '%s', own=%s, siblings ok=%s)"
-                            % (e["c"]["ty"], e["c"]["val"], e["c"]["depth"], e["c"]["nsib"], e["o"]["code"], e["o"]["hdr"], e["o"]["own"], e["o"]["sibok"]),
+                h = e["c"]["hist"]
+                info = hist_info.get(key(h))
+                by_history = h != BASELINE and key(row_of(e["c"])) not in base_failed and info is not None
+                v.violation(mirror_sig(e, info["src"] if by_history else None),
+                            "the SDK client's own tools/call for a schema-valid %s argument (class %s, annotation depth %d) "
+                            "with %d annotated sibling(s), made after the history [%s] (the last tools/list answer the client obtained for the "
+                            "tool carries the definition the server enforces), was not accepted unaltered by the SDK server, or a header did "
+                            "not carry its own parameter's value (code %d, header form '%s', own=%s, siblings ok=%s, request built from "
+                            "definition: %s)"
+                            % (e["c"]["ty"], e["c"]["val"], e["c"]["depth"], e["c"]["nsib"], hist_name(h), e["o"]["code"], e["o"]["hdr"],
+                               e["o"]["own"], e["o"]["sibok"], e["o"]["via"]),
                             {"table": "mirror", "c": e["c"], "o": e["o"], "conc": e.get("conc")})
             elif "drift" in by_line[line]:
-                v.drift.append("mirror outcome differs from HeaderMirrorDefs!Expected: %s got %s" % (key(e["c"]), key(e["o"])))
+                v.drift.append("mirror outcome is not in HeaderMirrorDefs!ExpectedSet: %s got %s" % (key(e["c"]), key(e["o"])))
         failed_cases = {key(mrows[l - 1]["c"]) for l in mfail_lines}
         ran = {key(r["c"]) for r in mrows}
-        for k in sorted(mirror_leads):
+        for k in sorted(mirror_certain):
             if k in ran and k not in failed_cases:
                 v.drift.append("model lead not reproduced by the real client/server: " + k)
+        # leads that depend on a choice the model leaves open (which cached page lookupTool meets first): reproduced per history
+        open_leads = collections.defaultdict(set)
+        for k in mirror_leads - mirror_certain:
+            if k in ran:
+                open_leads[key(json.loads(k)["hist"])].add(k)
+        for hk, ks in sorted(open_leads.items()):
+            if not ks & failed_cases:
+                v.drift.append("model lead (outcome left open by the model) not reproduced by the real client/server in any of %d "
+                               "cases of history %s" % (len(ks), hist_name(json.loads(hk))))
+        if not rep:
+            # vacuity of the history dimension on the real code: every definition kind was seen on the wire, informed and
+            # uninformed histories ran, a second list was answered from the cache and fetched again
+            vias = collections.Counter(r["o"]["via"] for r in mrows)
+            inf = collections.Counter(hist_info[key(r["c"]["hist"])]["informed"] for r in mrows)
+            if not (vias["current"] and vias["stale"] and vias["none"] and inf[True] and inf[False]):
+                raise vlib.MachineryError("HeaderMirror vacuity on the real code: via=%s informed=%s" % (dict(vias), dict(inf)))
 
     # ------------------------------------------------------------------ evidence
     def nondefault(c):
@@ -238,18 +316,27 @@ def run(tier, seed, replay):
     v.cov["traces_validated_against_impl"] = len(grows) + len(mrows)
     v.cov["evaluations"] = len(grows) + len(mrows)
     v.cov["distinct_nontrivial"] = len({key(r["c"]) for r in grows if nondefault(r["c"])}) + \
-        len({key(r["c"]) for r in mrows if r["c"]["val"] not in ("ascii", "small", "true")})
+        len({key(r["c"]) for r in mrows if r["c"]["val"] not in ("ascii", "small", "true") or r["c"]["hist"] != BASELINE})
     v.cov["rule"] = ("gate: every abstract POST request at most K=%d dimensions (of 11) away from the handler's well-formed request, "
                      "plus the 2^11 default/representative-fault product, on stateful, stateless and SSE handlers, x%d seeded "
-                     "concretisations; mirror: complete (depth 1..8 x type x header-name x 0..2 annotated siblings x value class) table x%d seeded "
-                     "concretisations; non-trivial = at least one faulty / non-default class (gate) or a value class other than "
-                     "plain ASCII / small / true (mirror)" % (K, greps, mreps))
+                     "concretisations; mirror: complete (depth 1..8 x type x header-name x 0..2 annotated siblings x value class) table under the "
+                     "baseline history (tools listed just now) x%d seeded concretisations, 14 further named client-side histories (never "
+                     "listed, within / after a positive ttlMs, no ttl and long ago, later page, tool changed on the server with and "
+                     "without re-listing / cache hit / list_changed notification, tool moved to another page) x %s, and every "
+                     "well-formed history of <= %d steps over {list, wait, change, shrink} x ttl x page x subscription x 10 probe rows; "
+                     "non-trivial = at least one faulty / non-default class (gate) or a value class other than plain ASCII / small / "
+                     "true or a history other than the baseline (mirror)"
+                     % (K, greps, MIRROR_BASE_REPS[tier], "the complete table" if full_cross == "TRUE" else "120 pivot rows (depth 1 and 3, 0..1 siblings, every value class)",
+                        hist_len))
     v.cov["exhaustive"] = False  # the gate product is K-bounded (the mirror table is complete)
     v.cov["gate"] = {"K": K, "cases": len(gcases), "requests": len(grows), "reached": sum(1 for r in grows if r["o"]["reached"]),
                      "first_fault": dict(firsts) if not rep else {}, "model_leads": len(gate_leads),
                      "status": dict(collections.Counter(str(r["o"]["status"]) for r in grows))}
     v.cov["mirror"] = {"cases": len(mcases), "calls": len(mrows), "accepted": sum(1 for r in mrows if r["o"]["accepted"]),
                        "model_leads": len(mirror_leads), "header_forms": dict(collections.Counter(r["o"]["hdr"] for r in mrows)),
+                       "histories": len({key(r["c"]["hist"]) for r in mrows}),
+                       "informed_calls": sum(1 for r in mrows if hist_info.get(key(r["c"]["hist"]), {}).get("informed")),
+                       "definition_used": dict(collections.Counter(r["o"]["via"] for r in mrows)),
                        "exhaustive": not rep}
     for r in (grows[:: max(1, len(grows) // 3)][:3] + mrows[:: max(1, len(mrows) // 3)][:3]):
         v.sample(r)
